@@ -29,6 +29,8 @@ const (
 	c09Window = 64 // channel window size of the sessions
 
 	opLimit = 2 * time.Second // a blocked operation must return within this time after the cut
+
+	stallLimit = 1500 * time.Millisecond // no byte moves for this long: the session is stalled
 )
 
 // sessCfg describes the workload of a session kind; it is the same for every run of the kind, so
@@ -306,8 +308,9 @@ func startOp(name string, fn func(o *op) status.Status) *op {
 
 // sessResult is the outcome of one session.
 type sessResult struct {
-	viol   []string
-	tokens []string
+	viol    []string
+	tokens  []string
+	stalled bool // the session stalled before the cut was reached
 
 	b      [2]int64 // bytes forwarded per direction
 	stream [2][]byte
@@ -439,22 +442,42 @@ func (w *c09Worker) runSession(cfg *sessCfg, tag uint64, plan cutPlan) *sessResu
 	})
 	ops := []*op{chanOp, recvOp, winOp, echoOp}
 
-	// Wait for the cut, or for the end of the echo workload.
+	// Wait for the cut, or for the end of the echo workload. A session in which no byte moves in
+	// either direction for stallLimit, although the workload is not finished and the cut has not
+	// fired, is stalled: an operation hangs without any transport failure.
 	sessLimit := 10 * time.Second
 	tStart := time.Now()
 	var tRef time.Time
 	cutFired := false
 	{
-		t := time.NewTimer(sessLimit)
-		select {
-		case <-ln.cutCh:
-			cutFired = true
-			tRef = ln.cutTime()
-		case <-echoOp.done:
-		case <-t.C:
-			res.violf("timeout-session-echo-%s", echoOp.getPhase())
+		tick := time.NewTicker(20 * time.Millisecond)
+		lastBytes, lastMove := int64(-1), time.Now()
+	wait:
+		for {
+			select {
+			case <-ln.cutCh:
+				cutFired = true
+				tRef = ln.cutTime()
+				break wait
+			case <-echoOp.done:
+				break wait
+			case <-tick.C:
+				now := time.Now()
+				if n := ln.bytes(dirC2S) + ln.bytes(dirS2C); n != lastBytes {
+					lastBytes, lastMove = n, now
+				}
+				if now.Sub(lastMove) > stallLimit {
+					res.stalled = true
+					res.violf("timeout-session-stalled-before-cut-echo-%s", echoOp.getPhase())
+					break wait
+				}
+				if now.Sub(tStart) > sessLimit {
+					res.violf("timeout-session-echo-%s", echoOp.getPhase())
+					break wait
+				}
+			}
 		}
-		t.Stop()
+		tick.Stop()
 	}
 	if !cutFired {
 		// The workload is over (or stuck) and the cut has not fired: let the other operations reach
@@ -690,8 +713,15 @@ func (w *c09Worker) recovery(kind int, cfg *sessCfg, tag uint64, plan cutPlan) (
 		mode = mpx.ClientMode_AutoConnect
 		name = "auto"
 	}
-	w.px.setPlan(plan)
-	cl := mpx.NewClient(w.px.addr(), mode, clg, cfg.opts())
+	// A dedicated proxy: an auto-connect client dials once more after Close (its close listener
+	// reconnects without checking the closed flag), which must not disturb the next session.
+	px, err := newProxy(w.srv.Address())
+	if err != nil {
+		return name + "-skipped-proxy", nil
+	}
+	defer px.close()
+	px.setPlan(plan)
+	cl := mpx.NewClient(px.addr(), mode, clg, cfg.opts())
 	defer cl.Close()
 
 	// First connection: traffic until the cut.
@@ -701,7 +731,7 @@ func (w *c09Worker) recovery(kind int, cfg *sessCfg, tag uint64, plan cutPlan) (
 	if !st.OK() {
 		return name + "-skipped-conn-" + stcode(st), nil
 	}
-	ln := w.px.nextLink(3 * time.Second)
+	ln := px.nextLink(3 * time.Second)
 	if ln == nil {
 		return name + "-skipped-nolink", nil
 	}
@@ -749,7 +779,7 @@ func (w *c09Worker) recovery(kind int, cfg *sessCfg, tag uint64, plan cutPlan) (
 	case recAuto:
 		// The client must reconnect by itself: a new connection arrives at the proxy and the
 		// connected flag is set, without any call.
-		l2 := w.px.nextLink(3 * time.Second)
+		l2 := px.nextLink(3 * time.Second)
 		switch {
 		case l2 == nil:
 			viol = append(viol, "no-recovery-auto:no-new-connection")
@@ -767,6 +797,14 @@ func (w *c09Worker) recovery(kind int, cfg *sessCfg, tag uint64, plan cutPlan) (
 	tok = fmt.Sprintf("%s-%dms", name, time.Since(t0).Milliseconds())
 	if forced {
 		tok += "-forcedcut"
+	}
+	if kind == recAuto {
+		// Observation only: does the closed client dial again?
+		px.drain()
+		cl.Close()
+		if px.nextLink(30*time.Millisecond) != nil {
+			tok += "-dialafterclose"
+		}
 	}
 	if len(viol) > 0 {
 		tok = name + "-fail"
@@ -987,9 +1025,23 @@ func contains(tokens []string, prefix string) bool {
 }
 
 func (w *c09Worker) runJob(j c09Job) (string, []string) {
-	res := w.runSession(j.cfg, j.tag, j.plan)
-	viol := res.viol
+	// A session that stalls before the cut is reached cannot test the cut: the stall is reported
+	// and the session is repeated.
+	var res *sessResult
+	var viol []string
+	stalls := 0
+	for attempt := 0; attempt < 3; attempt++ {
+		res = w.runSession(j.cfg, j.tag+uint64(attempt), j.plan)
+		viol = append(viol, res.viol...)
+		if !res.stalled {
+			break
+		}
+		stalls++
+	}
 	tokens := res.tokens
+	if stalls > 0 {
+		tokens = append(tokens, fmt.Sprintf("stalls=%d", stalls))
+	}
 	if j.rec != recNone {
 		tok, v := w.recovery(j.rec, j.cfg, j.tag^0x5555, j.plan)
 		tokens = append(tokens, "rec="+tok)
